@@ -181,6 +181,7 @@ let p_action (c : cursor) : action =
     let nm = p_field c in let pr = p_field c in let se = p_field c in let ri = p_field c in let h = p_field c in
     AcRegI (str_of_hex nm, z_of_hex pr, se = "1", ri = "1", n_of_int (int_of_string h))
   | 'K' -> AcLock (n_of_int (int_of_string (p_field c)))
+  | 'Z' -> let _ = p_field c in AcParse []   (* a handler that takes time: timing only; in the sequential model a parse of the empty program *)
   | _ -> failwith "bad action"
 
 let rec nat_of_int i = if i <= 0 then O else S (nat_of_int (i - 1))
